@@ -483,6 +483,22 @@ func (n *Net) Connect(l *Listener, p Peer, from *net.TCPAddr, tag string) (*Link
 	return k, nil
 }
 
+// ConnectLocal is Connect for a listener bound to the wildcard address: the accepted connection's
+// local address is the address the peer dialled (local), not the listener's.
+//
+//go:norace
+func (n *Net) ConnectLocal(l *Listener, p Peer, local *net.TCPAddr, tag string) (*Link, error) {
+	if l.closed {
+		return nil, fmt.Errorf("connection refused")
+	}
+	n.nextPort++
+	from := &net.TCPAddr{IP: net.ParseIP("127.0.0.1"), Port: n.nextPort}
+	k := n.newLink(local, from, p, tag)
+	l.backlog = append(l.backlog, k)
+	l.q.WakeAll()
+	return k, nil
+}
+
 // PeerWrite queues bytes from the peer towards the SUT.
 //
 //go:norace
